@@ -2,6 +2,7 @@ import Toxi.Driver.E1
 import Toxi.Driver.E2
 import Toxi.Driver.E3
 import Toxi.Driver.E4
+import Toxi.Driver.E6
 /-
 Model driver: reads one protocol line per operation on stdin, answers one line on stdout.
 First argument selects the engine adapter.  Core Lean only (compiled as a lean_exe).
@@ -45,6 +46,7 @@ def main (args : List String) : IO UInt32 := do
   match args with
   | ["e1"] => loopR hin hout E1.init E1.step E1.init; return 0
   | ["e3"] => loopR hin hout E3.init E3.step E3.init; return 0
+  | ["e6"] => loopR hin hout E6.init E6.step E6.init; return 0
   | ["e4"] => loopR hin hout E4.init E4.step E4.init; return 0
   | ["e2"] => loopR hin hout E2.init E2.step E2.init; return 0
   | _ => IO.eprintln "usage: driver e1|..."; return 2
